@@ -40,6 +40,8 @@ def constructs():
         'arraycompound': Arr(I(2), Op('+', V('x'), I(1))), 'arraycompound0': Arr(I(0), Call('f', [I(1), I(1)])),
         'object': Obj(N(), [Let('u', I(1)), Fun('g', [], V('this'))]), 'objectext': Obj(V('a'), [Let('u', V('x'))]),
         'objectempty': Obj(N(), []),
+        'getfieldcall': GF(Call('mk', []), 'fa'), 'indexcall': Ix(Call('mka', []), I(0)), 'getfieldnested': GF(GF(Obj(N(), [Let('in', Call('mk', []))]), 'in'), 'fa'),
+        'arrayofarrays': Arr(I(2), Arr(I(2), I(0))), 'arrayofobjects': Arr(I(2), Obj(N(), [Let('u', V('x'))])),
         # programs the compiler must refuse or that fail when run: still inside C02's quantifier if they compile
         'objectdupfield': Obj(N(), [Let('u', I(1)), Let('u', I(2))]), 'objectdupfield3': Obj(V('a'), [Let('u', I(1)), Let('w', V('x')), Let('u', I(2))]),
         'objectdupmethod': Obj(N(), [Fun('g', [], I(1)), Fun('g', ['p'], V('p'))]),
@@ -47,7 +49,8 @@ def constructs():
     }
 
 
-PRELUDE = [Let('x', I(7)), Let('t', B(True)), Let('a', Arr(I(3), I(0))),
+MK = [Fun('mk', [], Blk([Pr('mk;'), Obj(N(), [Let('fa', I(5))])])), Fun('mka', [], Blk([Pr('mka;'), Arr(I(2), I(6))]))]
+PRELUDE = MK + [Let('x', I(7)), Let('t', B(True)), Let('a', Arr(I(3), I(0))),
            Fun('f', ['p', 'q'], Op('+', V('p'), V('q'))),
            Let('o', Obj(N(), [Let('fa', I(1)), Fun('m', ['p'], Op('+', V('p'), GF(V('this'), 'fa')))]))]
 SHOW = Pr('~ ~ ~ ~\\n', [V('x'), V('a'), GF(V('o'), 'fa'), V('t')])
@@ -90,7 +93,7 @@ def in_function(stmts_fn):
     def wrap(c):
         body = [Let('x', I(7)), Let('t', B(True)), Let('a', Arr(I(3), I(0))),
                 Let('o', Obj(N(), [Let('fa', I(1)), Fun('m', ['p'], Op('+', V('p'), GF(V('this'), 'fa')))]))] + stmts_fn(c) + [I(0)]
-        return [Fun('f', ['p', 'q'], Op('+', V('p'), V('q'))), Fun('h', [], Blk(body)), Pr('~\\n', [Call('h', [])])]
+        return MK + [Fun('f', ['p', 'q'], Op('+', V('p'), V('q'))), Fun('h', [], Blk(body)), Pr('~\\n', [Call('h', [])])]
     return wrap
 
 
@@ -98,13 +101,13 @@ def in_method(stmts_fn):
     def wrap(c):
         body = [Let('x', I(7)), Let('t', B(True)), Let('a', Arr(I(3), I(0))),
                 Let('o', Obj(N(), [Let('fa', I(1)), Fun('m', ['p'], Op('+', V('p'), GF(V('this'), 'fa')))]))] + stmts_fn(c) + [I(0)]
-        return [Fun('f', ['p', 'q'], Op('+', V('p'), V('q'))), Let('hh', Obj(N(), [Fun('h', [], Blk(body))])), Pr('~\\n', [MC(V('hh'), 'h', [])])]
+        return MK + [Fun('f', ['p', 'q'], Op('+', V('p'), V('q'))), Let('hh', Obj(N(), [Fun('h', [], Blk(body))])), Pr('~\\n', [MC(V('hh'), 'h', [])])]
     return wrap
 
 
 def in_block(stmts_fn):
     def wrap(c):
-        return [Fun('f', ['p', 'q'], Op('+', V('p'), V('q'))),
+        return MK + [Fun('f', ['p', 'q'], Op('+', V('p'), V('q'))),
                 Blk([Let('x', I(7)), Let('t', B(True)), Let('a', Arr(I(3), I(0))),
                      Let('o', Obj(N(), [Let('fa', I(1)), Fun('m', ['p'], Op('+', V('p'), GF(V('this'), 'fa')))]))] + stmts_fn(c))]
     return wrap
